@@ -493,7 +493,7 @@ def run(ctx):
             if mres is None:
                 continue
             if tag == "hk":
-                witness_checked += 1
+                witness_checked += 1 if E > 0 else 0
                 if mres["valid"] != 1:
                     flag("witness-invalid", {"g": g, "scipy_matching": a.get("match"), "what": "SciPy's table is not a matching of the graph (length nV, edges, injective)"})
                 mc = mres["hk"]
